@@ -5,6 +5,7 @@ import (
 	"fmt"
 	"go/types"
 	"sort"
+	"strings"
 
 	"golang.org/x/tools/go/ssa"
 )
@@ -533,4 +534,55 @@ func describeDef(c *Ctx, v ssa.Value) string {
 		return "result of " + calleeName(x.Common())
 	}
 	return v.String()
+}
+
+// scriptDispatch: the one function through which every embedded Lua script reaches the store,
+// (*Redis).ScriptRunCtx, dispatches it with a call that survives the server having forgotten the
+// script (go-redis Script.Run / Eval: EVALSHA with a transparent EVAL on NOSCRIPT, or plain EVAL).
+// A bare EvalSha after a one-off Load answers NOSCRIPT for ever after a SCRIPT FLUSH, restart or
+// fail-over: limiters classify that as a store outage and fall back to their private buckets
+// although the store is reachable; the lock can no longer be taken or released (seed r3-C03-1).
+func scriptDispatch(c *Ctx, rule string) {
+	f := c.fn(rule, "core/stores/redis", "(*Redis).ScriptRunCtx")
+	if f == nil {
+		return
+	}
+	var script *ssa.Parameter
+	for _, p := range f.Params {
+		if strings.HasSuffix(typeString(p.Type()), "redis/v9.Script") || strings.HasSuffix(typeString(p.Type()), ".Script") {
+			script = p
+		}
+	}
+	if script == nil {
+		c.R.Undecided(rule, "core/stores/redis.(*Redis).ScriptRunCtx", "the script parameter resolves", "no parameter of type *Script")
+		return
+	}
+	ok := map[string]bool{"Run": true, "RunRO": true, "Eval": true, "EvalRO": true, "Hash": true}
+	var used, bad []string
+	walkWithClosures(f, func(g *ssa.Function) {
+		for _, b := range g.Blocks {
+			for _, ins := range b.Instrs {
+				call, isCall := ins.(ssa.CallInstruction)
+				if !isCall {
+					continue
+				}
+				cc := call.Common()
+				sc := cc.StaticCallee()
+				if sc == nil || sc.Signature.Recv() == nil || len(cc.Args) == 0 || !valueIsParam(cc.Args[0], script, g) {
+					continue
+				}
+				used = append(used, sc.Name())
+				if !ok[sc.Name()] {
+					bad = append(bad, fmt.Sprintf("%s: the script is dispatched with Script.%s — no fallback to EVAL when the server no longer knows the script", c.P.Pos(ins.Pos()), sc.Name()))
+				}
+			}
+		}
+	})
+	sort.Strings(bad)
+	sort.Strings(used)
+	detail := strings.Join(bad, "; ")
+	if len(used) == 0 {
+		detail = "no method of the script is called: the dispatch is not recognised"
+	}
+	c.R.Check(len(bad) == 0 && len(used) > 0, rule, "core/stores/redis.(*Redis).ScriptRunCtx#dispatch", "scripts are sent with Script.Run/Eval (EVALSHA falling back to EVAL), never with a bare EvalSha/Load", posOf(c, f), detail, bad, len(used))
 }
